@@ -84,11 +84,17 @@ class _LazyMap(dict):
     def __init__(self, name, wrap, lo, hi, rnd):
         dict.__init__(self)
         self._n, self._wrap, self._lo, self._hi, self._rnd = name, wrap, lo, hi, rnd
+        self._seed = rnd.getrandbits(48) if not hasattr(rnd, "_pyvc_seed") else rnd._pyvc_seed
+        rnd._pyvc_seed = self._seed
         self._seen = {}
         self._pre = {}
 
     def _touch(self, k):
         if k not in self._seen and not dict.__contains__(self, k):
+            # deterministic per (run seed, map name, key): twin states built in one unit see the same content
+            import random as _r
+            rr = _r.Random("%s|%s|%s" % (self._seed, self._n, k))
+            self._rnd = rr
             present = self._rnd.random() < 0.7
             self._seen[k] = present
             if present:
